@@ -1,6 +1,7 @@
 import Gnet.Driver.Util
 import Gnet.Gen.Arith
 import Gnet.Model.Gfd
+import Gnet.Model.Options
 namespace Gnet.Driver.ArithD
 open Gnet
 
@@ -8,9 +9,7 @@ def bv (s : String) : Option (BitVec 64) := (parseInt s).map (BitVec.ofInt 64)
 def res (r : Option (BitVec 64)) : String :=
   match r with | none => "r=panic" | some v => s!"r={v.toInt}"
 
-def chunkNorm (chunk : BitVec 64) (et : Bool) : Option (BitVec 64 × Bool) :=
-  if BitVec.slt 0#64 chunk then (Gen.CeilToPowerOfTwo chunk).map (fun c => (c, true))
-  else if et then some (1048576#64, true) else some (chunk, et)
+open Gnet.Options (chunkNorm)
 
 def step (_ : Unit) (ws : List String) : Option (Unit × String) :=
   let ok (s : String) : Option (Unit × String) := some ((), s)
@@ -46,6 +45,17 @@ def step (_ : Unit) (ws : List String) : Option (Unit × String) :=
         ok s!"fd={g.fd.toInt} el={g.eventLoopIndex.toInt} row={g.row.toInt} col={g.column.toInt}"
       | _, _, _, _ => ok "bad-op"
     else ok "bad-op"
+  | ["parse", _addr, uerr, sch, host, path, joined] =>
+    match bytesOfHex sch, bytesOfHex host, bytesOfHex path, bytesOfHex joined with
+    | some sch, some host, some path, some joined =>
+      let str (l : List Nat) : String := String.ofList (l.map (fun b => Char.ofNat b))
+      let u : Options.UrlParts := ⟨uerr == "1", str sch, str host, str path, str joined⟩
+      ok (match Options.dispatch u with
+        | .ok s e => s!"r=ok scheme={s} ep={hexOfBytes (e.toList.map (·.toNat))}"
+        | .urlError => "r=err:url"
+        | .invalidAddress => "r=err:invalid"
+        | .unsupportedProtocol => "r=err:unsupported")
+    | _, _, _, _ => ok "bad-op"
   | ["gfdupd", fd, el, row, col, row2, col2] =>
     match bv fd, bv el, bv row, bv col, bv row2, bv col2 with
     | some fd, some el, some row, some col, some row2, some col2 =>
